@@ -433,6 +433,14 @@ class AbstractInteger(Abstract):
         """
         return self.__sub__(other)
 
+    def __pos__(self: AbstractInteger) -> AbstractInteger:
+        """
+        Unary plus; the strict checker accepts it on Nada DSL integers.
+        """
+        result = Abstract(type(self))
+        result.value = self.value
+        return result
+
     def __neg__(self: AbstractInteger) -> AbstractInteger:
         """
         Negation of abstract values that are instances of integer classes.
